@@ -1,5 +1,111 @@
-import XlVerif.Base
-/-! Driver for X01, the integrated pipeline (stub). -/
+import XlVerif.Model.X01
+import XlVerif.Model.X01Sem
+import XlVerif.Drv.EvalWire
+/-!
+  Driver for X01, the integrated pipeline.
+
+  `wb <cells> <names> <addrs> [<default sheet>]`
+      cells : `<addr>~c~<S wire>` or `<addr>~t~<formula text>` joined by `|`
+      names : `<name>~<reference text>` joined by `|`
+      addrs : addresses (or defined names) joined by `|`
+      (addresses, names and texts are decimal code points joined by `.`)
+    → `impl=<r>|<r>…  exact=<0|1>|…  fx=<compiled tree of the cell>|…`
+      `<r>` in the alphabet of `EvalWire.resW`, plus
+        `unsupported:<NAME>`       the evaluation called a function that is not integrated
+        `unsupported:dyn:<NAME>`   … an integrated function outside its modelled domain
+        `unsupported:nonfinite`    … an operator produced a non-finite float
+        `X:crash:<Class>`          a Python exception of this class escaped a function body (wrapped by
+                                   `evaluate` into "Problem evaluating cell …"; length of its repr not modelled)
+        `X:compile:<Class>`        building the model raised
+        `unsupported:compile:<what>`
+      `exact=1`: every float taken or returned by a function call of this evaluation is exact in double
+      arithmetic (the strict run did not raise).
+  `coverage` → `integrated=<names>  exactpoint=<names>  not=<names>`
+-/
 namespace XlVerif.Drv.X01
-def handle (_fields : List String) : String := "error=not-implemented"
+open XlVerif XlVerif.Model.Evaluator XlVerif.Model.X01 XlVerif.Drv.EvalWire
+
+def nameOfId (id : Nat) : String :=
+  match funcAt id with
+  | some f => String.ofList f.name
+  | none => s!"#{id}"
+
+def crashOfIdx (i : Nat) : String :=
+  match [Crash.typeError, .valueError, .zeroDivision, .overflow, .recursion, .keyError, .indexError,
+         .attributeError, .assertion, .invalidOperation, .runtime, .syntaxError, .other][i]? with
+  | some k => k.wire
+  | none => "Other"
+
+/-- the result of an evaluation with the sentinels decoded -/
+def resX : Res → String
+  | .exc .runtime n =>
+    if n ≥ inexactMark then "unsupported:inexact"
+    else if n ≥ nonfiniteMark then "unsupported:nonfinite"
+    else if n ≥ dynBase then "unsupported:dyn:" ++ nameOfId (n - dynBase)
+    else if n ≥ unsupBase then "unsupported:" ++ nameOfId (n - unsupBase)
+    else if n ≥ crashBase then "X:crash:" ++ crashOfIdx (n / crashBase - 1)
+    else s!"X:runtime:{n}"
+  | r => resW r
+
+partial def fxW : Fx → String
+  | .lit v => v.wire
+  | .ref a => "@" ++ String.ofList a
+  | .rng a => "@@" ++ String.ofList a
+  | .app f args => nameOfId f ++ "(" ++ ",".intercalate (args.map fxW) ++ ")"
+  | .iff c t e => "IF(" ++ fxW c ++ "," ++ fxW t ++ "," ++ fxW e ++ ")"
+  | .sc isAnd args => (if isAnd then "AND(" else "OR(") ++ ",".intercalate (args.map fxW) ++ ")"
+  | .fail n args => s!"FAIL{n}(" ++ ",".intercalate (args.map fxW) ++ ")"
+
+def cellSrc? (w : String) : Option (Text × Content) :=
+  match w.splitOn "~" with
+  | [a, "c", v] => do
+      let addr ← parseText? a
+      let x ← S.ofWire? v
+      pure (addr, .const x)
+  | [a, "t", t] => do
+      let addr ← parseText? a
+      let text ← parseText? t
+      pure (addr, .formula text)
+  | _ => none
+
+def sourceOfWire? (cells names ds : String) : Option Source := do
+  let cs ← (splitNE cells "|").mapM cellSrc?
+  let ns ← (splitNE names "|").mapM fun w =>
+    match w.splitOn "~" with
+    | [n, a] => do pure ((← parseText? n), (← parseText? a))
+    | _ => none
+  let d ← parseText? ds
+  pure { cells := cs, names := ns, defaultSheet := d }
+
+def fuel : Nat := 200
+
+def cerrW : CErr → String
+  | .exc k => "X:compile:" ++ k.wire
+  | .unsupported what => "unsupported:compile:" ++ String.ofList what
+
+def evalAll (m : MState) (addrs : List Text) : String :=
+  let rs := addrs.map fun a => fresh (guardOf libSem) fuel m a
+  let ss := addrs.map fun a => fresh (strictOf (guardOf libSem)) fuel m a
+  let ex := (rs.zip ss).map fun (r, s) => if r == s then "1" else "0"
+  let fx := addrs.map fun a =>
+    match m.cell? (m.resolve a) with
+    | some c => (match c.formula with | some f => fxW f | none => "-")
+    | none => "-"
+  kv [("impl", "|".intercalate (rs.map resX)), ("exact", "|".intercalate ex), ("fx", "|".intercalate fx)]
+
+def handle (fields : List String) : String :=
+  match fields with
+  | "wb" :: cells :: names :: addrs :: rest =>
+    let ds := match rest with | d :: _ => d | [] => textWire "Sheet1".toList
+    (match sourceOfWire? cells names ds, (splitNE addrs "|").mapM parseText? with
+     | some src, some as =>
+       (match compile src with
+        | .ok m => evalAll m as
+        | .error e => kv [("impl", "|".intercalate (as.map fun _ => cerrW e)), ("exact", ""), ("fx", "")])
+     | _, _ => "error=bad-request")
+  | ["coverage"] =>
+    kv [("integrated", ",".intercalate integratedNames), ("exactpoint", ",".intercalate exactPointOnly),
+        ("not", ",".intercalate notIntegratedNames)]
+  | _ => "error=bad-request"
+
 end XlVerif.Drv.X01
